@@ -654,7 +654,7 @@ def check_who(ctx, prog):
                     ctx.ob("who", "nodes mutated only by insert/remove/apply_pending (get_mut: element access)", ok, s.loc(), "%s in %s (private helpers inherit what all their callers may do)" % (k, b.short))
                 else:
                     ctx.ob("who", "first_connected_pos written only by insert/remove/apply_pending", bool(lk.allowed_kinds(prog, K, root, fcp_tab)), s.loc(), "%s in %s" % (k, b.short))
-    ctx.ob("who", "floor:mutation sites", n >= 15, nontrivial=False, msg=str(n))
+    ctx.ob("who", "floor:mutation sites", n >= 10, nontrivial=False, msg=str(n))
     for ctor in ("new", "default"):
         pat = r"^libp2p_kad::kbucket::bucket::KBucket::new$" if ctor == "new" else r"kbucket::bucket::KBucket as std::default::Default>::default$"
         b = ctx.body(K, pat)
